@@ -891,7 +891,52 @@ def r3b_plan_queries_read_their_own_table(ctx):
     ctx.floor("plan queries", n, 2)
 
 
-RULES = [("C03-R1", r1_plan_only_from_pure), ("C03-R1b", r1b_capture_write_is_an_effect), ("C03-R2", r2_effect_tables), ("C03-R3", r3_plan_consulted), ("C03-R3b", r3b_plan_queries_read_their_own_table), ("C03-R4", r4_dataflow_shape), ("C03-R4b", r4b_reads_and_writes_reach_the_summaries), ("C03-R4c", r4c_summaries_are_a_transitive_closure), ("C03-R4d", r4d_bitset_arithmetic_agrees), ("C03-R4e", r4e_fixpoint_flags_are_sticky), ("C03-R5", r5_loop_cfg_shape)]
+def r2b_no_trap_verdicts_rest_on_stable_types(ctx):
+    """`make u get x.len()` with u unused is removed when x.len() "cannot trap", and that verdict comes from x's recorded static
+    type.  The verdict is only as good as that type: if a statement later in the text - executed earlier or later - can change
+    the recorded type (a same-scope redeclaration with another type, an assignment of another type), an expression classified
+    while the old type was on record can trap at run time after all, and removing it changes how the program ends.  The
+    checker is single-pass, so the rule reports the combination: the classifier reaches the table of recorded variable types,
+    and routines of the checker overwrite entries of that table after the declaration."""
+    cg = ctx.lib.callgraph()
+    cls = ctx.need("resolver::Resolver::classify_expr")
+    ctx.touch(cls)
+    seen, st = set(), [cls.id]
+    while st:
+        x = st.pop()
+        if x in seen:
+            continue
+        seen.add(x)
+        for cal in cg.get(x, {}):
+            if cal in ctx.lib.fns:
+                st.append(cal)
+        st.extend(g.id for g in ctx.lib.closures_of(x))
+    reads_types = "resolver::Resolver::lookup_var_info" in seen
+    # writers of a recorded type other than the first declaration: stores of a ValueType through a projection rooted in
+    # variable_scopes, outside the branch that pushes a new entry
+    writers = []
+    for fid, g in sorted(ctx.lib.fns.items()):
+        if g.file != "src/resolver.rs":
+            continue
+        for b in sorted(g.live):
+            for stt in g.blocks[b]["s"]:
+                if not stt["lhs"]["p"]:
+                    continue
+                lty = g.locals[stt["lhs"]["l"]]["ty"]
+                txt = sh(ne(g.deep({"copy": {"l": stt["lhs"]["l"], "p": []}})))
+                is_vt = (stt["rv"]["k"] == "agg" and str(stt["rv"].get("adt", "")).endswith("ValueType")) or ("ValueType" in lty and "mut" in lty) or (stt["rv"]["k"] == "use" and "ValueType" in (g.locals[(stt["rv"]["a"].get("copy") or stt["rv"]["a"].get("move") or {"l": 0})["l"]]["ty"] if isinstance(stt["rv"]["a"], dict) and (stt["rv"]["a"].get("copy") or stt["rv"]["a"].get("move")) else ""))
+                if is_vt and ("variable_scopes" in txt or "ValueType" in lty):
+                    writers.append((parent_fn(fid), g.block_line(b)))
+    writers = sorted(set(w for w, _l in writers))
+    if reads_types and writers:
+        ctx.bad("classifier-trusts-types-that-change", cls.where(), "classify_expr decides 'cannot trap' from the recorded static type of variables (it reaches lookup_var_info), and %s overwrite recorded types after the declaration: an expression classified under the old type - in a function defined earlier, or earlier in a loop body - is removed as harmless although it fails at run time once the variable holds the other type (`make x get \"abc\"  do g() start make u get x.len() end  x get 5  g()` prints on, while `shout(x.len())` in the same place ends in Type mismatch)" % ", ".join(w.split("::")[-1] for w in writers))
+    elif reads_types:
+        ctx.ok("classifier-types-stable", cls.where(), "recorded variable types are written once, at the declaration")
+    else:
+        ctx.ok("classifier-type-free", cls.where(), "the classifier does not consult recorded variable types")
+
+
+RULES = [("C03-R1", r1_plan_only_from_pure), ("C03-R1b", r1b_capture_write_is_an_effect), ("C03-R2", r2_effect_tables), ("C03-R2b", r2b_no_trap_verdicts_rest_on_stable_types), ("C03-R3", r3_plan_consulted), ("C03-R3b", r3b_plan_queries_read_their_own_table), ("C03-R4", r4_dataflow_shape), ("C03-R4b", r4b_reads_and_writes_reach_the_summaries), ("C03-R4c", r4c_summaries_are_a_transitive_closure), ("C03-R4d", r4d_bitset_arithmetic_agrees), ("C03-R4e", r4e_fixpoint_flags_are_sticky), ("C03-R5", r5_loop_cfg_shape)]
 
 EXPLANATION = (
     "R1: in build_optimization_plan every push into the removable sets is edge-dominated by the test that justifies it "
@@ -911,6 +956,9 @@ EXPLANATION += (
 )
 EXPLANATION += (
     " R3b: each query on the pruning plan answers from the table of its own kind (statements / function definitions; both hold u32 ids, so the wrong one type-checks). R4e: every iterate-until-stable loop of the analyses resets its `changed` flag once per round and only raises it with a constant. R4 additionally: the largest local id a function's frame is sized for counts the ids written by the callees' capture sets as well as the function's own, and the transfer function applies kills before gens in every statement class."
+)
+EXPLANATION += (
+    " R2b: the classifier's 'cannot trap' verdicts must not rest on variable types that later statements can change: it reports the combination 'classify_expr reaches the table of recorded variable types' and 'checker routines overwrite entries of that table after the declaration' (open known finding D35: the checker is single-pass)."
 )
 ASSUMPTIONS = ["the tables in effects.rs are the only source of built-in effect classes", "user-function effects enter only through summaries (direct_callees)"]
 TRUSTED = ["rustc nightly MIR/HIR", "nsx exporter", "nsverif table extraction (constant propagation over acyclic table functions)"]
